@@ -151,6 +151,23 @@ fn is_arith_or_cmp(op: &BinOp) -> bool {
     !matches!(op, BinOp::And(_) | BinOp::Or(_))
 }
 
+fn has_continue(b: &Block) -> bool {
+    struct F(bool);
+    impl<'ast> Visit<'ast> for F {
+        fn visit_expr_continue(&mut self, _: &'ast ExprContinue) {
+            self.0 = true;
+        }
+        fn visit_expr_closure(&mut self, _: &'ast ExprClosure) {}
+        // a `continue` of a nested loop belongs to that loop
+        fn visit_expr_for_loop(&mut self, _: &'ast ExprForLoop) {}
+        fn visit_expr_while(&mut self, _: &'ast ExprWhile) {}
+        fn visit_expr_loop(&mut self, _: &'ast ExprLoop) {}
+    }
+    let mut f = F(false);
+    f.visit_block(b);
+    f.0
+}
+
 fn has_escape(e: &Expr) -> bool {
     struct F(bool);
     impl<'ast> Visit<'ast> for F {
@@ -629,6 +646,55 @@ impl<'a, 'ast> Visit<'ast> for Rewriter<'a> {
         }
     }
     fn visit_expr_for_loop(&mut self, l: &'ast ExprForLoop) {
+        // R-forrange: `for P in A..=B { S }` over integers ->
+        //   `{ let mut j = A; let end = B; let mut more = j <= end; while more { let P = j; { S } if j < end { j += 1; } else { more = false; } } }`
+        // and `for P in A..B { S }` -> `{ let mut j = A; let end = B; while j < end { let P = j; { S } j += 1; } }`
+        // (the documented meaning of Range / RangeInclusive iteration; a body with `continue` is not rewritten)
+        if self.cfg.rfor {
+            if let Expr::Range(rg) = &*l.expr {
+                if let (Some(a), Some(b)) = (&rg.start, &rg.end) {
+                    if !has_continue(&l.body) && matches!(&*l.pat, Pat::Ident(_) | Pat::Wild(_)) {
+                        let closed = matches!(rg.limits, RangeLimits::Closed(_));
+                        let for_start = self.r(l.for_token.span).0;
+                        let brace_open = self.r(l.body.brace_token.span.open());
+                        let brace_close = self.r(l.body.brace_token.span.close());
+                        let pr = self.r(l.pat.span());
+                        let ar = self.r(a.span());
+                        let br = self.r(b.span());
+                        let mut head = vec![Piece::Lit("{ let mut __vx_j = ".into()), Piece::Src(ar.0, ar.1), Piece::Lit("; let __vx_end = ".into()), Piece::Src(br.0, br.1)];
+                        if closed {
+                            head.push(Piece::Lit("; let mut __vx_more = __vx_j <= __vx_end; while __vx_more ".into()));
+                        } else {
+                            head.push(Piece::Lit("; while __vx_j < __vx_end ".into()));
+                        }
+                        self.edits.replace((for_start, brace_open.0), head, "R-forrange");
+                        self.edits.replace(
+                            (brace_open.1, brace_open.1),
+                            vec![Piece::Lit(" let ".into()), Piece::Src(pr.0, pr.1), Piece::Lit(" = __vx_j; {".into())],
+                            "R-forrange",
+                        );
+                        let tail = if closed {
+                            "} if __vx_j < __vx_end { __vx_j += 1; } else { __vx_more = false; } "
+                        } else {
+                            "} __vx_j += 1; "
+                        };
+                        self.edits.insert(brace_close.0, tail.to_string(), "R-forrange");
+                        self.edits.insert(brace_close.1, " }".to_string(), "R-forrange");
+                        self.note("R-forrange", l.span());
+                        if let Some(d) = self.loop_depth_in_tail.as_mut() {
+                            *d += 1;
+                        }
+                        self.visit_expr(a);
+                        self.visit_expr(b);
+                        self.visit_block(&l.body);
+                        if let Some(d) = self.loop_depth_in_tail.as_mut() {
+                            *d -= 1;
+                        }
+                        return;
+                    }
+                }
+            }
+        }
         if self.cfg.rfor {
             // R-for: the language's own desugaring of `for` (IntoIterator::into_iter elided: the
             // iterated expressions here are iterators already)
